@@ -469,8 +469,8 @@ class TOCLinks:
         while not fresh:
             ret = uuid1()
             fresh = ret not in self._toc_path
-        self._toc_path[ret] = None  # not assigned yet, but "reserved"
-        # ----
+        # NOTE: the UUID is not entered into the TOC before it is registered,
+        # otherwise a failing operation would leave an unassigned entry behind
         return ret
 
     def resolve(self, uuid: UUID) -> str:
